@@ -6,7 +6,9 @@
 //   - per production and subset of its nullable right-hand-side symbols (each chosen
 //     symbol expanded by its shortest non-empty derivation, the others left empty),
 //   - per production, right-hand-side position and alternative production of the
-//     nonterminal at that position ("pairs"),
+//     nonterminal at that position ("pairs"), with no, all and every proper subset of
+//     the nullable siblings,
+//   - every accepted production/optional sentence twice in a row ("double"),
 // rendered to bytes with a lexeme table and checked against the real parser of the
 // tree it is run on (baseline acceptance per version class, like corpus/snippets.json).
 //
@@ -658,6 +660,95 @@ func main() {
 				}
 			}
 		}
+	}
+	// (4) pairs with every proper subset of the nullable siblings (the two extremes are
+	//     class "pair" above): "trait T implements I {}" - an alternative child together
+	//     with one optional clause present and the other absent. Emitted in a separate
+	//     pass so that the sentences of (1)-(3) keep their indices.
+	for _, g := range gs {
+		gn := g.name
+		for _, p := range g.prods {
+			if !usable(p) {
+				continue
+			}
+			origin := fmt.Sprintf("%s.y:%s#%d", gn, p.lhs, p.idx)
+			var nullable []int
+			for i, s := range p.rhs {
+				if g.isNT(s) && len(g.min[s]) == 0 {
+					if _, ok := g.minNE[s]; ok {
+						nullable = append(nullable, i)
+					}
+				}
+			}
+			if len(nullable) < 2 || len(nullable) > 4 {
+				continue
+			}
+			for i, s := range p.rhs {
+				if !g.isNT(s) {
+					continue
+				}
+				var others []int
+				for _, k := range nullable {
+					if k != i {
+						others = append(others, k)
+					}
+				}
+				if len(others) < 2 && !(len(others) == 1 && false) {
+					if len(others) < 2 {
+						continue
+					}
+				}
+				for _, q := range g.by[s] {
+					if !usable(q) {
+						continue
+					}
+					qm, ok := g.expand(q, nil)
+					if !ok {
+						continue
+					}
+					for mask := 1; mask < (1<<len(others))-1; mask++ {
+						sub := map[int][]string{i: qm}
+						for b, k := range others {
+							if mask&(1<<b) != 0 {
+								sub[k] = g.minNE[p.rhs[k]]
+							}
+						}
+						if mid, ok := g.expand(p, sub); ok {
+							emit(g, "pair", fmt.Sprintf("%s/%d=%s#%d+opt%d", origin, i, s, q.idx, mask), p.lhs, mid)
+						}
+					}
+				}
+			}
+		}
+	}
+	// (5) doubled programs: the code of every accepted production/optional sentence twice in
+	//     a row. What the first copy leaves behind (parser value stack, lexer state, pools)
+	//     is what the second copy starts from.
+	n0 := len(out)
+	for k := 0; k < n0; k++ {
+		s := out[k]
+		if s.Class != "production" && s.Class != "optional" {
+			continue
+		}
+		const open = "<?php "
+		if !strings.HasPrefix(s.Src, open) || len(s.Src) <= len(open) || len(s.Src) > 200 {
+			continue
+		}
+		body := s.Src[len(open):]
+		src := open + body + " " + body
+		if seen[src] {
+			continue
+		}
+		d := Snip{Src: src, Origin: s.Origin + "/x2", Class: "double"}
+		d.OK5, d.OK72, d.OK74 = accepted(src, 5, 6), accepted(src, 7, 2), accepted(src, 7, 4)
+		// kept only where doubling preserves what the single sentence was accepted under
+		if (s.OK5 && !d.OK5) || (s.OK72 && !d.OK72) || (s.OK74 && !d.OK74) {
+			stats["double not accepted"]++
+			continue
+		}
+		seen[src] = true
+		stats["double accepted"]++
+		out = append(out, d)
 	}
 	var keys []string
 	for k := range stats {
